@@ -211,4 +211,68 @@ theorem stack_ne_nil {α} (o : Orient) (pad : α) (ds : List (Grid α)) (g : Gri
   rintro rfl
   cases o <;> simp [stack, concat] at hs
 
+/-! ## element restriction and filtering -/
+
+/-- `Laser.remove` of the elements that were not requested keeps exactly the requested ones -/
+theorem remove_filter (els req : List String) :
+    els.filter (fun e => !(els.filter fun e => !req.contains e).contains e) = els.filter fun e => req.contains e := by
+  apply List.filter_congr
+  intro e he
+  by_cases hr : req.contains e = true
+  · simp
+    intro _
+    simpa using hr
+  · simp only [Bool.not_eq_true] at hr
+    simp [he]
+
+/-- the filter loop over a duplicate-free list of names: visited names that the image has hold the
+filter of the ORIGINAL field, every other field is as before -/
+theorem fold_filter (f : String → Grid Tok → Grid Tok) (l0 : Laser) (es : List String) (hnd : es.Nodup)
+    (cur : Laser) (hel : cur.elements = l0.elements) (hcfg : cur.config = l0.config)
+    (hh : cur.data.h = l0.data.h) (hw : cur.data.w = l0.data.w)
+    (hinv : ∀ n ∈ es, ∀ i j, cur.data.get i j n = l0.data.get i j n) :
+    (es.foldl (fstep f) cur).elements = l0.elements ∧ (es.foldl (fstep f) cur).config = l0.config ∧
+    (es.foldl (fstep f) cur).data.h = l0.data.h ∧ (es.foldl (fstep f) cur).data.w = l0.data.w ∧
+    ∀ i j n, (es.foldl (fstep f) cur).data.get i j n =
+      if n ∈ es ∧ n ∈ l0.elements then (f n (l0.field n)).get i j else cur.data.get i j n := by
+  induction es generalizing cur with
+  | nil => simp [hel, hcfg, hh, hw]
+  | cons e t ih =>
+    have hnd' := (List.nodup_cons.mp hnd)
+    have hfield : cur.field e = l0.field e := by
+      simp only [Laser.field, hh, hw]
+      congr 1
+      funext i j
+      exact hinv e (by simp) i j
+    have hstep_el : (fstep f cur e).elements = l0.elements := by
+      simp only [fstep]; split <;> simp [Laser.setField, hel]
+    have hstep_cfg : (fstep f cur e).config = l0.config := by
+      simp only [fstep]; split <;> simp [Laser.setField, hcfg]
+    have hstep_h : (fstep f cur e).data.h = l0.data.h := by
+      simp only [fstep]; split <;> simp [Laser.setField, hh]
+    have hstep_w : (fstep f cur e).data.w = l0.data.w := by
+      simp only [fstep]; split <;> simp [Laser.setField, hw]
+    have hstep_get : ∀ i j n, (fstep f cur e).data.get i j n =
+        if n = e ∧ e ∈ l0.elements then (f e (l0.field e)).get i j else cur.data.get i j n := by
+      intro i j n
+      simp only [fstep, hel, List.contains_iff_mem]
+      by_cases he : e ∈ l0.elements
+      · simp only [he, if_true, Laser.setField, hfield, and_true]
+      · simp [he]
+    have hinv' : ∀ n ∈ t, ∀ i j, (fstep f cur e).data.get i j n = l0.data.get i j n := by
+      intro n hn i j
+      have hne : n ≠ e := by rintro rfl; exact hnd'.1 hn
+      rw [hstep_get]
+      simp only [hne, false_and, if_false]
+      exact hinv n (List.mem_cons_of_mem _ hn) i j
+    obtain ⟨h1, h2, h3, h4, h5⟩ := ih hnd'.2 (fstep f cur e) hstep_el hstep_cfg hstep_h hstep_w hinv'
+    simp only [List.foldl_cons]
+    refine ⟨h1, h2, h3, h4, ?_⟩
+    intro i j n
+    rw [h5, hstep_get]
+    by_cases hne : n = e
+    · subst hne
+      simp [hnd'.1]
+    · simp [hne]
+
 end Pew.Cli
